@@ -268,3 +268,109 @@ Example agreement_hypotheses_met :
 Proof.
   cbv zeta. repeat split; try (repeat constructor; try eexists; try reflexivity; try discriminate).
 Qed.
+
+(* ============================================================================================================== *)
+(* "... and as the SQL engine does for the stages both implement": line filter, label filter, json with parameters and
+   drop are run by ClickHouse when they stand in front of the first json / logfmt / line_format stage and in process
+   when they stand behind it.  The meaning of the SQL side is C07's reference run_stages / logql_sem2
+   (model/LogqlSem.v; tied to the generated SQL by C07's theorems), the meaning of the in-process side is sem_chain
+   (tied to the Go stages by engines_agree).  model/InternalEngineSql.v translates a pipeline of C07's syntax into a
+   chain of in-process stages (tr_chain), instantiates float64 with the rationals C07 compares with and links the
+   oracles (regexp with swapped arguments, one number parser).                                                      *)
+From Qryn Require model.Logql model.LogqlSem model.InternalEngineSql proofs.InternalEngineSqlProofs.
+Module B := InternalEngineSql.
+
+(* (1) the two REFERENCES coincide: for every pipeline of common stages in any order, every list of data rows whose label
+   maps are those of the SQL side's samples (same pairs; the SQL side holds them in any order without duplicate names, the
+   in-process side sorted), the in-process reference returns exactly the lines C07's reference defines, in the same
+   order, each with the same timestamp, the same text and the same label map -- provided the json decoders are linked
+   (decoders_linked: the in-process decoder assigns to every parameter label what the ClickHouse extraction writes).   *)
+Theorem sql_and_inprocess_references_agree :
+  forall (re7 : string -> string -> bool) (pf : string -> option QArith_base.Q)
+         (json_get : string -> list string -> string) (hash_labels : LogqlSem.labels -> Z)
+         (parse9 : N -> string -> option lbls) (q0 q1 : QArith_base.Q) (qadd qdiv : QArith_base.Q -> QArith_base.Q -> QArith_base.Q)
+         (qofZ : Z -> QArith_base.Q) (fpf : lbls -> N) (tmpl : N -> lbls -> option string),
+    pf EmptyString = None ->
+    forall (c : ctx) (ppl : list Logql.stage) (rows : list (entry QArith_base.Q)) (xs : list (Z * LogqlSem.labels * Z * string)),
+      forallb B.common_stage ppl = true ->
+      B.decoders_linked json_get parse9 0%N ppl ->
+      Forall2 B.row_matches rows xs ->
+      Forall2 B.out_matches
+        (fold_left (fun x s => sem_stage QArith_base.Q q0 q1 qadd qdiv B.qltb B.qleb B.qeqb qofZ fpf (B.re9 re7) pf parse9 tmpl c s x)
+                   (B.tr_chain pf 0%N ppl) rows)
+        (B.sql_rows re7 pf json_get hash_labels ppl xs).
+Proof. exact InternalEngineSqlProofs.refs_agree. Qed.
+Print Assumptions sql_and_inprocess_references_agree.
+
+(* (2) composed with engines_agree: what the in-process ENGINE sends (the Go stages as modelled by run_chain, any batching
+   of the rows and their terminator into channel messages) is what the SQL reference defines.  Together with C07's
+   theorem (the generated SQL evaluates to logql_sem2 = these rows) this is one statement about SQL results against
+   in-process results for the stages both engines implement.                                                          *)
+Theorem inprocess_engine_agrees_with_sql_reference :
+  forall (re7 : string -> string -> bool) (pf : string -> option QArith_base.Q)
+         (json_get : string -> list string -> string) (hash_labels : LogqlSem.labels -> Z)
+         (parse9 : N -> string -> option lbls) (q0 q1 : QArith_base.Q) (qadd qdiv : QArith_base.Q -> QArith_base.Q -> QArith_base.Q)
+         (qofZ : Z -> QArith_base.Q) (fpf : lbls -> N) (tmpl : N -> lbls -> option string),
+    pf EmptyString = None ->
+    forall (panic_kills : bool) (c : ctx) (ppl : list Logql.stage) (bs : list (list (entry QArith_base.Q)))
+           (rows t : list (entry QArith_base.Q)) (xs : list (Z * LogqlSem.labels * Z * string)),
+      forallb B.common_stage ppl = true ->
+      B.decoders_linked json_get parse9 0%N ppl ->
+      Forall2 B.row_matches rows xs -> Forall (terminator QArith_base.Q) t -> List.concat bs = rows ++ t ->
+      exists out,
+        map (erase QArith_base.Q)
+            (data_of QArith_base.Q (List.concat (run_chain QArith_base.Q q0 q1 qadd qdiv B.qltb B.qleb B.qeqb qofZ panic_kills fpf (B.re9 re7) pf parse9 tmpl c
+                                                             (B.tr_chain pf 0%N ppl) bs)))
+        = map (erase QArith_base.Q) out /\
+        Forall2 B.out_matches out (B.sql_rows re7 pf json_get hash_labels ppl xs).
+Proof. exact InternalEngineSqlProofs.engine_vs_sql. Qed.
+Print Assumptions inprocess_engine_agrees_with_sql_reference.
+
+(* "the same label map" is the same multiset of pairs *)
+Theorem same_map_is_permutation : forall (ls : LogqlSem.labels) (m : lbls), B.same_map ls m -> Permutation ls m.
+Proof. exact InternalEngineSqlProofs.same_map_perm. Qed.
+Print Assumptions same_map_is_permutation.
+
+Open Scope string_scope.
+(* the hypotheses are met by a non-trivial pipeline: a label filter with `and`, a json stage with a parameter, a drop and
+   a line filter over two rows; the linked decoder is the one that writes what json_get extracts *)
+Example references_agree_hypotheses_met :
+  let jp := {| Logql.pp_label := "lvl"; Logql.pp_val := "level"; Logql.pp_path := Some ["level"] |}%string in
+  let flt := Logql.LF (Logql.HSimple {| Logql.slf_label := "app"; Logql.slf_fn := Logql.LEq; Logql.slf_str := Some "x"; Logql.slf_num := None |})
+                      (Some true)
+                      (Some (Logql.LF (Logql.HSimple {| Logql.slf_label := "n"; Logql.slf_fn := Logql.LGt; Logql.slf_str := None; Logql.slf_num := Some ("1", "1.000000") |}) None None)) in
+  let ppl := [Logql.PParser Logql.PJson [jp]; Logql.PLabelFilter flt; Logql.PDrop [("pod", None)]; Logql.PLineFilter Logql.LFContains "e" None]%string in
+  let json_get := fun (line : string) (p : list string) => if String.eqb line "{""level"":""err""}" then "err"%string else EmptyString in
+  let parse9 := fun (i : N) (line : string) => Some [("lvl", json_get line ["level"])]%string in
+  let r1 := {| e_ts := 1; e_fp := 7%N; e_lbl := Some [("app", "x"); ("n", "2"); ("pod", "p1")]%string; e_msg := "{""level"":""err""}"%string;
+               e_val := (QArith_base.Qmake 0 1); e_err := ENone |} in
+  forallb B.common_stage ppl = true /\ B.decoders_linked json_get parse9 0%N ppl /\
+  B.row_matches r1 (1, [("pod", "p1"); ("app", "x"); ("n", "2")]%string, 7, "{""level"":""err""}"%string).
+Proof.
+  cbv zeta. split; [reflexivity|]. split.
+  - cbn. repeat split; intros; reflexivity.
+  - cbn. repeat split; try reflexivity. eexists. split; [reflexivity|]. split.
+    + repeat constructor; cbn; intuition discriminate.
+    + split.
+      * cbn. repeat split; intros k' H; repeat (destruct H as [<-|H]; [reflexivity|]); destruct H.
+      * intros a b. cbn. intuition.
+Qed.
+
+(* the link between the decoders is NOT met by the real decoders when a path is missing (or the line is not JSON): the
+   ClickHouse extraction writes "" over the label (C07's reference: "an extraction that finds nothing writes ''"), the
+   in-process jsonWithParams leaves the label alone (its decoder returns no pair: parse9 = Some []).  Then the two
+   references differ on the stream label `app` of the line {"a":"b"} under `| json app="missing"`: "" against "x". *)
+Example decoders_differ_on_a_missing_path :
+  let jp := {| Logql.pp_label := "app"; Logql.pp_val := "missing"; Logql.pp_path := Some ["missing"] |}%string in
+  let ppl := [Logql.PParser Logql.PJson [jp]] in
+  let json_get := fun (line : string) (p : list string) => EmptyString in
+  let parse9 := fun (i : N) (line : string) => Some (@nil (string * string)) in
+  let r1 := {| e_ts := 1; e_fp := 7%N; e_lbl := Some [("app", "x")]%string; e_msg := "{""a"":""b""}"%string; e_val := (QArith_base.Qmake 0 1); e_err := ENone |} in
+  B.sql_rows (fun _ _ => false) (fun _ => None) json_get (fun _ => 0) ppl [(1, [("app", "x")]%string, 7, "{""a"":""b""}"%string)]
+    = [(1, [("app", EmptyString)]%string, "{""a"":""b""}"%string)] /\
+  map (fun e => (e_ts _ e, lbl_of _ e, e_msg _ e))
+      (fold_left (fun x s => sem_stage QArith_base.Q (QArith_base.Qmake 0 1) (QArith_base.Qmake 1 1) QArith_base.Qplus QArith_base.Qdiv B.qltb B.qleb B.qeqb QArith_base.inject_Z (fun _ => 0%N) (B.re9 (fun _ _ => false)) (fun _ => None) parse9 (fun _ _ => None)
+                                       {| c_from := 0; c_to := 10; c_limit := 0 |} s x)
+                 (B.tr_chain (fun _ => None) 0%N ppl) [r1])
+    = [(1, [("app", "x")]%string, "{""a"":""b""}"%string)].
+Proof. cbv zeta. split; reflexivity. Qed.
